@@ -7,6 +7,6 @@ CONSTANTS
   StaleTimeout = FALSE
   InitStates = {"Queued", "Locked"}
   B <- BFaults
-  MaxHist = 60
+  MaxHist = 120
 INVARIANTS Emit
 CHECK_DEADLOCK FALSE
